@@ -128,7 +128,7 @@ def split_operands(optext: str) -> List[str]:
 
 
 _REG = r"%[a-z][a-z0-9]*"
-_NUM = r"-?0x[0-9a-f]+|-?[0-9]+"
+_NUM = r"-?0x[0-9a-fA-F]+|-?[0-9]+"
 RE_IMM = re.compile(rf"^\$({_NUM})$")
 RE_REG = re.compile(rf"^({_REG})$")
 RE_MEM = re.compile(rf"^({_NUM})?\(({_REG})?(?:,({_REG}),([1248]))?\)$")
